@@ -70,18 +70,49 @@ def resolve(name):
 
 def observe(obj):
     if isinstance(obj, Base):
-        return {"ok": True, "typed": typed(obj), "dump": canon(obj.model_dump(by_alias=True, exclude_none=True)),
-                "dump_noalias": canon(obj.model_dump(exclude_none=True))}
+        out = {"ok": True, "typed": typed(obj), "dump": canon(obj.model_dump(by_alias=True, exclude_none=True)),
+               "dump_noalias": canon(obj.model_dump(exclude_none=True))}
+        try:
+            import json as _json
+            # the JSON TEXT serialiser with its defaults, the very call the stdio writer makes
+            out["dump_json"] = canon(_json.loads(obj.model_dump_json(exclude_none=True)))
+        except BaseException as e:  # noqa: BLE001
+            out["dump_json"] = {"$fail": type(e).__name__}
+        return out
     if isinstance(obj, list):
         return {"ok": True, "list": [observe(o) for o in obj]}
     return {"ok": True, "typed": typed(obj), "dump": canon(obj)}
+
+
+def scribble(v):
+    """write into every container of a dump, in place"""
+    if isinstance(v, dict):
+        for x in list(v.values()):
+            scribble(x)
+        v["$scribbled"] = 1
+    elif isinstance(v, list):
+        for x in v:
+            scribble(x)
+        v.append("$scribbled")
 
 
 def run_case(c):
     op = c["op"]
     try:
         if op == "validate":
-            return observe(resolve(c["cls"]).model_validate(c["data"]))
+            import copy as _copy
+            wire = _copy.deepcopy(c["data"])
+            obj = resolve(c["cls"]).model_validate(wire)
+            out = observe(obj)
+            # a VIEW of the wire object: writing into one dump (as a forwarder, or the library's own send_message, does) must
+            # show neither in the next dump nor in the wire object the model was validated from
+            d1 = obj.model_dump(by_alias=True, exclude_none=True)
+            before = canon(_copy.deepcopy(d1))
+            scribble(d1)
+            d2 = obj.model_dump(by_alias=True, exclude_none=True)
+            out["second_dump_equal"] = canon(d2) == before
+            out["wire_untouched"] = canon(wire) == canon(c["data"])
+            return out
         if op == "construct":      # keyword construction, as library code does
             return observe(resolve(c["cls"])(**c["data"]))
         if op == "parse":
